@@ -362,16 +362,25 @@ def step (s : S) : Call → S × Out × Call
 
 def initTokens (req : Bool) : List TokenDef := if req then init.tokReq else init.tokAns
 
+def pureCrc (cfg : CrcCfg) (table : Bool) (data : Bits) (little : Bool) : Out :=
+  .bits (crcRun cfg (if table then some (mkTable cfg.width cfg.poly) else none) little data).2
+
+def pureCrcShared (k : Nat) (data : Bits) (little : Bool) : Out :=
+  match sharedCfgs[k]? with
+  | none => .err "no-such-calculator"
+  | some (cfg, table) => pureCrc cfg table data little
+
+def pureHamCac (i : Nat) (w : Bits) : Out :=
+  if i ≥ 5 then .err "no-such-code"
+  else codeOp theCodes i (·.n) w (fun C => .flagBits (C.checkAndCorrect w).1 (C.checkAndCorrect w).2)
+
 def pureOut : Call → Out
-  | .crcShared k data little =>
-    match sharedCfgs[k]? with
-    | none => .err "no-such-calculator"
-    | some (cfg, table) => .bits (crcRun cfg (if table then some (mkTable cfg.width cfg.poly) else none) little data).2
-  | .crcNew cfg table data little | .crcKept cfg table data little =>
-    .bits (crcRun cfg (if table then some (mkTable cfg.width cfg.poly) else none) little data).2
+  | .crcShared k data little => pureCrcShared k data little
+  | .crcNew cfg table data little => pureCrc cfg table data little
+  | .crcKept cfg table data little => pureCrc cfg table data little
   | .hamGenerate i m => codeOp theCodes i (·.k) m (fun C => .bits (C.gen m))
   | .hamCheck i w => codeOp theCodes i (·.n) w (fun C => .flag (C.check w))
-  | .hamCac i w => if i ≥ 5 then .err "no-such-code" else codeOp theCodes i (·.n) w (fun C => .flagBits (C.checkAndCorrect w).1 (C.checkAndCorrect w).2)
+  | .hamCac i w => pureHamCac i w
   | .fiveBit data => fiveBit data
   | .byteswap data => .bytes (byteswap data)
   | .burstDefault => .bits Gen.PurityInit.burstDefaultBits
@@ -382,13 +391,15 @@ def pureOut : Call → Out
   | .getToken req name attrs => .tok (getTokenAux init.attrDefs name attrs (initTokens req) 0).1
   | .tmsAsBytes more ack res ctl ty body => .bytes (tmsBytes more ack res ctl ty body)
 
+/-- the buffer `check_and_correct` leaves in its argument -/
+def cacBuffer (i : Nat) (w : Bits) : Bits :=
+  match pureHamCac i w with
+  | .flagBits _ b => b
+  | _ => w
+
 /-- what the Python leaves in the argument buffers: only `check_and_correct` writes (its repaired word) -/
 def argsAfter : Call → Call
-  | .hamCac i w =>
-    if i ≥ 5 then .hamCac i w else
-    match codeOp theCodes i (·.n) w (fun C => .flagBits (C.checkAndCorrect w).1 (C.checkAndCorrect w).2) with
-    | .flagBits _ b => .hamCac i b
-    | _ => .hamCac i w
+  | .hamCac i w => .hamCac i (cacBuffer i w)
   | c => c
 
 /-- run a history, collecting the results -/
